@@ -114,6 +114,23 @@ type Fact struct {
 
 // factsAt returns the branch facts that hold on entry to block b.
 func factsAt(b *ssa.BasicBlock) []Fact {
+	out := factsAtLocal(b)
+	// an extracted helper inherits what holds at its only call
+	if curWorld != nil {
+		fn := b.Parent()
+		for depth := 0; depth < 4 && fn != nil; depth++ {
+			c := curWorld.UniqueCall(fn)
+			if c == nil {
+				break
+			}
+			out = append(out, factsAtLocal(c.Block())...)
+			fn = c.Parent()
+		}
+	}
+	return out
+}
+
+func factsAtLocal(b *ssa.BasicBlock) []Fact {
 	var out []Fact
 	for _, ib := range b.Parent().Blocks {
 		if len(ib.Instrs) == 0 {
@@ -497,6 +514,16 @@ func loadOfField(v ssa.Value, typeName, field string) (ssa.Value, bool) {
 		}
 	}
 	return nil, false
+}
+
+// loadOfFieldR is loadOfField looking through the parameters of extracted helpers (both the loaded value and
+// the base it returns are replaced by the arguments of the helper's only call).
+func loadOfFieldR(v ssa.Value, typeName, field string) (ssa.Value, bool) {
+	base, ok := loadOfField(resolveParam(v), typeName, field)
+	if !ok {
+		return nil, false
+	}
+	return resolveParam(base), true
 }
 
 // isLoad matches a pointer dereference and returns the address.
